@@ -20,19 +20,24 @@ SumTo(zn) == (zn * (zn + 1)) \div 2
 
 TreeN(ztr) == Len(TREES[ztr].kids)
 
-(* lend, lendt: what each activation of Lend must see.  LendW(k, arg) = the value of the   *)
-(* parameter dw the activation with dn = k was called with; the borrower then writes,       *)
-(* through the references, da := 10k + k and dw := 2 * dw + da; the nested activation of    *)
-(* Lend (called with dw + 1) must not disturb either of them.                               *)
-RECURSIVE LendW(_, _)
-LendW(zk, zarg) == IF zk = zarg THEN 7 ELSE 2 * LendW(zk + 1, zarg) + 11 * (zk + 1) + 1
-LendSeen(zk, zarg) == << zk, 2 * LendW(zk, zarg) + 11 * zk, 11 * zk >>              \* logged at d2
-LendBorrowed(zk, zarg) == << -zk, 11 * zk, 2 * LendW(zk, zarg) + 11 * zk >>          \* logged at w4
+(* lend, lendt: what each activation of Lend must see.  The activation with dn = k > 0 is  *)
+(* called with dw = LendW(k); the borrower writes through its references wx, wy              *)
+(* (k odd: wx -> da, wy -> dw; k even: wx -> dw, wy -> da)  X := X + k, then Y := 2 * Y + X,  *)
+(* and re-enters Lend with dw = Y + 1; the nested activation must not disturb da or dw.     *)
+RECURSIVE LendW(_, _), LendDa(_, _), LendDw(_, _)
+LendW(zk, zarg) == IF zk = zarg THEN 7
+                   ELSE (IF (zk + 1) % 2 = 1 THEN LendDw(zk + 1, zarg) ELSE LendDa(zk + 1, zarg)) + 1
+LendDa(zk, zarg) == IF zk % 2 = 1 THEN 11 * zk ELSE 21 * zk + LendW(zk, zarg)
+LendDw(zk, zarg) == IF zk % 2 = 1 THEN 2 * LendW(zk, zarg) + 11 * zk ELSE LendW(zk, zarg) + zk
+LendSeen(zk, zarg) == << zk, LendDw(zk, zarg), LendDa(zk, zarg) >>                  \* logged at d2
+LendBorrowed(zk, zarg) == IF zk % 2 = 1 THEN << -zk, LendDa(zk, zarg), LendDw(zk, zarg) >>
+                                        ELSE << -zk, LendDw(zk, zarg), LendDa(zk, zarg) >>  \* logged at w4
 LendOut(zarg, ztail) ==
     << << 0, LendW(0, zarg), 0 >> >> \o
     (IF ztail THEN [zi \in 1..zarg |-> LendSeen(zi, zarg)]
               ELSE [zi \in 1..(2 * zarg) |-> IF zi % 2 = 1 THEN LendBorrowed((zi + 1) \div 2, zarg)
                                                           ELSE LendSeen(zi \div 2, zarg)])
+
 Results ==
     PC = "Done" =>
       /\ STK = << >>
